@@ -242,6 +242,8 @@ class Interp:
                     return sum(sp.Abs(x) for x in o)
                 if ta == "2":
                     return sp.sqrt(sum(x ** 2 for x in o))
+                if ta in ("-1", "Eigen::Infinity"):
+                    return sp.Max(*[sp.Abs(x) for x in o])
                 raise OutOfFragment("lpNorm<%s>" % ta)
             if name == "dot" and len(a) == 1:
                 b = self.ev(a[0])
